@@ -174,7 +174,7 @@ func c09Chain(d int, raise string, h int, hc string, handlerReturns bool, inLoop
 }
 
 func checkC09(c *Ctx) {
-	c.rule = "programs: (a) fixed families: call chains of depth 0..4 whose innermost body raises one of 16 raise kinds (a constructor called with too few arguments / whose body raises / faults, 抛出 of 异常 / custom type, ÷0, index, key, undefined name, type error, failing 转换数值, missing method, arity, malformed % template, % argument count, number-like invalid identifier - the last three only judged where no handler of 异常 is on the way) optionally inside a loop, with a matching or non-matching handler (preceded by a wrong-class handler) at every level 0..depth, with/without 输出 in the handler, function or type-method callers; marks before/after every call, follow-up probes of locals, parameters, 其 and a further call after the handler ran; variants probing callee locals that must be undefined; nested families where the handler itself raises and a handler further out takes over; (b) random programs with 抛出, runtime faults, handlers on methods and program; (c) uncaught custom exceptions whose 内容 is a text, integer, boolean, list, dictionary or decimal, raised directly, through one / two methods or from a handler: the program ends with that value as its message (written down for texts and integers, non-empty otherwise); (d) endurance: 90000 exceptions handled one after the other (a fault inside a nested expression of a method, a throw that crosses an argument and an index, a fault in a type method, a handler in a callee of the looping method) must leave the program running and yield the value written down. Oracle: reference evaluator; plus quiescent invariants after every successful run: call stack empty and every module scope at depth 0 (hooks H3/H4). distinct_nontrivial = distinct (family parameters / feature set, outcome kind)"
+	c.rule = "programs: (a) fixed families: call chains of depth 0..4 whose innermost body raises one of 16 raise kinds (a constructor called with too few arguments / whose body raises / faults, 抛出 of 异常 / custom type, ÷0, index, key, undefined name, type error, failing 转换数值, missing method, arity, malformed % template, % argument count, number-like invalid identifier - the last three only judged where no handler of 异常 is on the way) optionally inside a loop, with a matching or non-matching handler (preceded by a wrong-class handler) at every level 0..depth, with/without 输出 in the handler, function or type-method callers; marks before/after every call, follow-up probes of locals, parameters, 其 and a further call after the handler ran; variants probing callee locals that must be undefined; nested families where the handler itself raises and a handler further out takes over; (b) random programs with 抛出, runtime faults, handlers on methods and program; (c) uncaught custom exceptions whose 内容 is a text, integer, boolean, list, dictionary or decimal, raised directly, through one / two methods or from a handler: the program ends with that value as its message (written down for texts and integers, non-empty otherwise); (d) endurance: 90000 exceptions handled one after the other (a fault inside a nested expression of a method, a throw that crosses an argument and an index, a fault in a type method, a handler in a callee of the looping method) must leave the program running and yield the value written down; a chain of calls descending 1 ... 25000 levels with the same handler at every level (built-in and custom exception class): the handler that runs is the one of the deepest body entered, also at the interpreter's own call limit. Oracle: reference evaluator; plus quiescent invariants after every successful run: call stack empty and every module scope at depth 0 (hooks H3/H4). distinct_nontrivial = distinct (family parameters / feature set, outcome kind)"
 	c.assumptions = []string{"message text of runtime faults is not compared (U7)", "handlers only use 其, parameters and literals (U1)"}
 	rng := c.Rand("c09")
 	var progs []*zr.Program
@@ -360,6 +360,30 @@ func c09Endurance(c *Ctx) {
 		{"handled-in-the-loop-owner", "如何试？\n\t令和 = 0\n\t令次 = 0\n\t每当 次 < " + fmt.Sprint(n) + "：\n\t\t次 = 次 + 1\n\t\t和 = 和 + （内：次）\n\t输出 和\n如何内？\n\t输入数\n\t如果 数 % 2 == 0：\n\t\t输出 {1 / 0}\n\t输出 1\n\n\t拦截异常：\n\t\t输出 0\n输出（试）\n", fmt.Sprintf("num(%d)", n/2)},
 		{"no-exception-control", "如何试？\n\t输入甲、乙\n\t输出 {甲 / 乙 + 1} * 2\n" + loop("\t和 = 和 + （试：1、1）\n"), fmt.Sprintf("num(%d)", 4*n)},
 	}
+	// the nearest enclosing body with a matching handler takes the exception at whatever call depth
+	// that body runs - also when it is the deepest body the interpreter is willing to enter: a chain
+	// of calls descends to level D (or until a call is refused), every level has the same handler,
+	// the deepest level entered is written into an object; the level whose handler ran must be it
+	deep := func(d int, custom bool) string {
+		cls, def := "异常", ""
+		if custom {
+			cls, def = "触底异常", "定义触底异常：\n\t其内容 = “触底”\n"
+		}
+		return def + "定义记：\n\t其深 = 0\n令器 = （新建记）\n如何下？\n\t输入层、底、物\n\t物之深 = 层\n\t如果 层 == 底：\n\t\t抛出" + cls + "：“底”！\n\t输出（下：层 + 1、底、物）\n\n\t拦截" + cls + "：\n\t\t输出 层\n" +
+			fmt.Sprintf("令果 = （下：1、%d、器）\n输出【果 == 器之深，器之深 <= %d，果】\n", d, d)
+	}
+	for _, d := range []int{1, 2, 3, 50, 1000, 10000, 19000, 19990, 19995, 19996, 19997, 19998, 19999, 20000, 20001, 20002, 20005, 25000} {
+		want := fmt.Sprintf("list[bool(true),bool(true),num(%d)]", d)
+		if d > 19000 {
+			want = "deep-consistent"
+		}
+		cases = append(cases, ec{fmt.Sprintf("handler-at-depth/%d", d), deep(d, false), want})
+		if d <= 19000 {
+			cases = append(cases, ec{fmt.Sprintf("custom-handler-at-depth/%d", d), deep(d, true), want})
+		} else {
+			cases = append(cases, ec{fmt.Sprintf("custom-handler-at-depth/%d", d), deep(d, true), "deep-consistent-or-error"})
+		}
+	}
 	reqs := []Req{}
 	for _, e := range cases {
 		r := execReq(e.src)
@@ -369,6 +393,24 @@ func c09Endurance(c *Ctx) {
 	c.runBatches(reqs, 1, func(i int, req *Req, resp *Resp) {
 		c.Eval()
 		e := cases[i]
+		if strings.HasPrefix(e.want, "deep-consistent") {
+			// near the interpreter's own call limit the level reached is its business; the level
+			// whose handler ran must still be the deepest one entered
+			c.Nontrivial("endurance|" + e.name + "|" + resp.Kind)
+			ok := resp.Kind == "value" && resp.Val != nil && resp.Val.T == "list" && len(resp.Val.Items) == 3 && resp.Val.Items[0].T == "bool" && resp.Val.Items[0].B && resp.Val.Items[1].T == "bool" && resp.Val.Items[1].B
+			if !ok && e.want == "deep-consistent-or-error" && resp.Kind == "error" {
+				ok = true // a refused call is not an exception of the custom class: it may end the program
+			}
+			if resp.Kind == "timeout" {
+				c.Count("endurance_not_judged_watchdog", 1)
+				return
+			}
+			if !ok {
+				c.Violation("endurance:"+e.name, fmt.Sprintf("%s: the exception was not handled by the deepest body entered (the nearest enclosing one): outcome %s\nprogram:\n%s", e.name, clip(resp.Outcome(), 200), e.src), map[string]interface{}{"req": req})
+			}
+			quiescent(c, "endurance", e.name, e.src, resp)
+			return
+		}
 		got := resp.Kind
 		if resp.Kind == "value" && resp.Val != nil {
 			got = resp.Val.String()
